@@ -1,81 +1,13 @@
 //! C01 — evaluation of Poly0..8, PolyN and Log<Poly0..8> (driver: records events; the exact /
 //! 400-bit oracle is oracles/c01.py).
 
-use crate::events::*;
-use crate::flat::*;
-use crate::gen::*;
-use crate::mon::*;
+use ppv::events::*;
+use ppv::flat::*;
+use ppv::gen::*;
+use ppv::polygen::*;
+use ppv::mon::*;
 use piecewise_polynomial::*;
 use serde_json::json;
-
-pub fn coeff_vec(r: &mut Rng, len: usize, x: f64) -> (Vec<f64>, &'static str) {
-    match r.below(10) {
-        0 => {
-            let k = r.usize(0, len - 1);
-            let c = if r.chance(0.5) { r.small_int(9).max(1.0) } else { r.mixed(6.0) };
-            ((0..len).map(|i| if i == k { c } else { 0.0 }).collect(), "one_hot")
-        }
-        1 => ((0..len).map(|_| r.small_int(9)).collect(), "small_int"),
-        2 => ((0..len).map(|_| r.dyadic()).collect(), "dyadic"),
-        3 => ((0..len).map(|i| (i + 1) as f64).collect(), "suite_shape"),
-        4 => {
-            let s = r.pick(&[1.0, -1.0]);
-            ((0..len).map(|_| s * r.uniform(0.1, 10.0)).collect(), "same_sign")
-        }
-        5 => ((0..len).map(|i| if i % 2 == 0 { 1.0 } else { -1.0 } * r.uniform(0.1, 10.0)).collect(), "alternating")
-        ,
-        6 => {
-            // cancelling: (t - x0) * q(t) with x0 next to the query point
-            if len < 2 {
-                return (vec![r.mixed(3.0)], "cancelling");
-            }
-            let q: Vec<f64> = (0..len - 1).map(|_| r.uniform(-2.0, 2.0)).collect();
-            let x0 = if x.is_finite() && x.abs() < 1e3 { x * (1.0 + r.uniform(-1e-9, 1e-9)) } else { 1.0 };
-            let mut c = vec![0.0; len];
-            for (i, qi) in q.iter().enumerate() {
-                c[i + 1] += qi;
-                c[i] -= qi * x0;
-            }
-            (c, "cancelling")
-        }
-        7 => ((0..len).map(|_| r.logu(30.0)).collect(), "wide_magnitudes"),
-        _ => ((0..len).map(|_| r.mixed(3.0)).collect(), "mixed"),
-    }
-}
-
-pub fn arg_poly(r: &mut Rng) -> (f64, &'static str) {
-    match r.below(14) {
-        0 => (0.0, "zero"),
-        1 => (1.0, "one"),
-        2 => (-1.0, "minus_one"),
-        3 => (r.pick(&[3.0, 17.0]), "suite_point"),
-        4 => (r.small_int(20), "small_int"),
-        5 => (r.dyadic(), "dyadic"),
-        6 => (-r.uniform(0.0, 10.0), "negative"),
-        7 => (r.uniform(-1.0, 1.0), "fractional"),
-        8 => (r.logu(1.0) * 1e4, "large"),
-        9 => (r.logu(1.0) * 1e-4, "small"),
-        10 => (r.logu(12.0), "log_uniform"),
-        11 => (2f64.powi(r.int(-20, 20) as i32) * r.sign(), "power_of_two"),
-        12 => (-0.0, "neg_zero"),
-        _ => (r.mixed(3.0), "mixed"),
-    }
-}
-
-pub fn arg_log(r: &mut Rng) -> (f64, &'static str) {
-    match r.below(10) {
-        0 => (1.0, "v_one"),
-        1 => (ulps(1.0, r.int(-50, 50)), "v_ulps_of_one"),
-        2 => (7.0, "suite_point"),
-        3 => (r.uniform(0.0, 1.0).max(1e-300), "v_in_0_1"),
-        4 => (r.logu_pos(1.0) * 1e6, "v_huge"),
-        5 => (r.logu_pos(1.0) * 1e-6, "v_tiny"),
-        6 => (r.logu_pos(300.0), "v_any_magnitude"),
-        7 => (r.uniform(0.8, 1.2), "v_benchmark_range"),
-        8 => (std::f64::consts::E * (1.0 + r.uniform(-1e-12, 1e-12)), "v_near_e"),
-        _ => (r.uniform(0.0, 100.0).max(1e-300), "v_moderate"),
-    }
-}
 
 fn one<T: Nums + Evaluate>(m: &mut Mon, sink: &mut Sink, r: &mut Rng, log: bool) {
     let (x, xc) = if log { arg_log(r) } else { arg_poly(r) };
@@ -148,7 +80,7 @@ pub fn drive(a: &Args, m: &mut Mon, sink: &mut Sink) {
                 one::<Log<$t>>(m, sink, &mut r, true);
             };
         }
-        crate::for_polys!(per);
+        ppv::for_polys!(per);
         polyn(m, sink, &mut r);
     }
 }
